@@ -32,7 +32,7 @@ def j2m(J):
 # exactly unitary / symmetric / contractive rational matrices
 
 
-def cayley_unitary(rng, n, den=4):
+def cayley_unitary(rng, n, den=4, symmetric=False):
     """exactly unitary matrix with Gaussian-rational entries: (I - iH)^-1 (I + iH), H Hermitian.
     Returned as (matrix of Fraction pairs) -> floats are NOT exact, so for exactness we return
     numerators/denominators separately."""
@@ -42,7 +42,7 @@ def cayley_unitary(rng, n, den=4):
     for i in range(n):
         H[i][i] = (Fr(rng.randint(-3, 3), den), Fr(0))
         for j in range(i + 1, n):
-            z = (Fr(rng.randint(-3, 3), den), Fr(rng.randint(-3, 3), den))
+            z = (Fr(rng.randint(-3, 3), den), Fr(0) if symmetric else Fr(rng.randint(-3, 3), den))
             H[i][j] = z
             H[j][i] = (z[0], -z[1])
     # exact Gaussian-rational linear algebra
@@ -71,8 +71,9 @@ def cayley_unitary(rng, n, den=4):
 
 
 def frac_lit(z):
-    """(Fraction, Fraction) -> Coq literal"""
-    a, b = z
+    """(Fraction, Fraction) or ("a/b", "c/d") -> Coq literal"""
+    from fractions import Fraction as Fr
+    a, b = Fr(z[0]), Fr(z[1])
     d = a.denominator * b.denominator // math.gcd(a.denominator, b.denominator)
     return f"(cq {zl(a.numerator * (d // a.denominator))} {zl(b.numerator * (d // b.denominator))} {d})"
 
@@ -85,7 +86,8 @@ def zl(n):
 # generation
 
 
-def gen_netlist(rng: random.Random, max_comps=5, max_pins=4, kind="random", min_comps=1):
+def gen_netlist(rng: random.Random, max_comps=5, max_pins=4, kind="random", min_comps=1,
+                expose_all=False):
     nc = rng.randint(min_comps, max_comps)
     comps = []
     for c in range(nc):
@@ -95,18 +97,27 @@ def gen_netlist(rng: random.Random, max_comps=5, max_pins=4, kind="random", min_
             S = (S + S.T) / 2
         perm = list(range(n))
         rng.shuffle(perm)
-        comps.append({"n": n, "S": m2j(S), "perm": perm})
+        comp = {"n": n, "S": m2j(S), "perm": perm}
+        if kind in ("unitary", "unitary_sym", "contractive"):
+            U = cayley_unitary(rng, n, symmetric=(kind == "unitary_sym"))
+            if kind == "contractive":
+                from fractions import Fraction as Fr
+                dg = [Fr(rng.randint(0, 4), 4) for _ in range(n)]
+                U = [[(U[i][j][0] * dg[j], U[i][j][1] * dg[j]) for j in range(n)] for i in range(n)]
+            comp["Sfrac"] = [[[str(z[0]), str(z[1])] for z in row] for row in U]
+            comp["S"] = [[[float(z[0]), float(z[1])] for z in row] for row in U]
+        comps.append(comp)
     pins = [(c, k) for c in range(nc) for k in range(comps[c]["n"])]
     rng.shuffle(pins)
     conns = []
     target = rng.choice([0, 1, 2, 3, 4, 6, 8])
     used = set()
     # force some multi-links / cycles with fixed probability
-    if nc >= 2 and rng.random() < 0.3:
+    if nc >= 2 and rng.random() < 0.4:
         a, b = rng.sample(range(nc), 2)
         pa = [(a, k) for k in range(comps[a]["n"])]
         pb = [(b, k) for k in range(comps[b]["n"])]
-        for x, y in list(zip(pa, pb))[:2]:
+        for x, y in list(zip(pa, pb))[:rng.choice([2, 2, 3])]:
             conns.append([list(x), list(y)])
             used.add(x)
             used.add(y)
@@ -123,7 +134,7 @@ def gen_netlist(rng: random.Random, max_comps=5, max_pins=4, kind="random", min_
         used.add(y)
     free = [p for p in pins if p not in used]
     rng.shuffle(free)
-    k = rng.randint(0, len(free)) if rng.random() < 0.7 else len(free)
+    k = rng.randint(0, len(free)) if (rng.random() < 0.7 and not expose_all) else len(free)
     expo = [[p[0], p[1], f"x{i}"] for i, p in enumerate(sorted(free[:k]))]
     rng.shuffle(expo)
     return {"comps": comps, "conns": conns, "expo": expo,
